@@ -6,9 +6,11 @@ T-gen : Gen/Flags.v regenerated from pandora/constants.py (imported values) and 
 T-corr: (A) the real criteria functions (criteria.validity_mask, then compute_cost_volume + cv_masked, called
         as PandoraMachine.matching_cost_prepare/_run call them) against the extracted Model/Criteria.v on
         generated (masks, interval or grids, window, subpix) layouts, exact;
-        (B) random legal pipelines run for real through pandora.run; the masks are captured after every step
-        by wrapping the machine callbacks; every per-pixel flag change must be one the extracted
-        Model/FlagSteps.v can produce for SOME decision of the step (exact, existential over decisions).
+        (B) random legal pipelines (repeated refinement / filter / validation, mc-cnn and sgm interpolation,
+        median_for_intervals with regularization) run for real through pandora.run on a fresh machine; the left
+        and right masks are captured after every step by wrapping the machine callbacks; every per-pixel flag
+        change must be one the extracted Model/FlagSteps.v can produce for SOME decision of the step (exact,
+        existential over the 1024 decisions).
 Spec  : the boolean spec of Spec/Validity.v (extracted) applied to the implementation's masks after the
         matching cost; per step: only documented bits, < 4096, only the step's own bits change, border
         pixels bit 0 only, invalid flag <-> all costs NaN <-> invalid disparity before validation."""
@@ -30,7 +32,7 @@ RULE = ("(A) layouts = (rows, cols, window, interval or grids, subpix, measure, 
         "other masks up to width 7; quick: sampled); a layout is non-trivial when some pixel carries a flag "
         "other than 0 and the border value; distinct by full content. (B) pipelines = random legal words "
         "MC (A|C)* D (F|R|V)* with repeated refinement / filter / validation steps and interpolation, run on "
-        "8x12 masked images; non-trivial when some flag changes after the disparity step; distinct by "
+        "6..9 x 9..13 masked images (window 1/3/5, sad/ssd/census, subpix 1/2, invalid_disparity -9999 / NaN / 77); non-trivial when some flag changes after the disparity step; distinct by "
         "(step list, image seed)")
 ASSUMES = [
     "cv.coords['col'] = 0..nc-1 with step 1 (no ROI, step_col = 1), odd window sizes, integer global interval",
@@ -39,8 +41,11 @@ ASSUMES = [
     "the 0/1 factors of the flag writes (dil, comp, msk[arg_valid]) are 0/1 (modelled as booleans)",
     "flag-level model of refinement / cross-checking / interpolation / median_for_intervals: which pixel is "
     "stopped, inconsistent, filled, regularised is an arbitrary decision (numeric side: C06, C07, C14, C10)",
-    "'all costs NaN <-> no computable disparity' (C02) is checked here on the real cost volumes, not proved; "
-    "the theorems take the NaN pattern of the spec (computable) as the input of mask_invalid_variable_disparity_range",
+    "'all costs NaN <-> no computable disparity of the global interval' is PROVED for the SAD / SSD volume models of C02 "
+    "(C04_nan_pattern_sad, C04_invalid_iff_allnan_sad/ssd); for census / zncc (no C02 theorem yet) and for the real cost "
+    "volumes it is the hypothesis nan_pattern_ok of the criteria theorems, checked on every real volume of the run",
+    "the border invariant of the pipeline theorem is 'flag 1, or 2049 after a regularising median_for_intervals' (recorded "
+    "finding border_regularized); own-bits of a step is proved for pixels whose flag is 1 when on the border",
     "plugin steps (optimization, semantic_segmentation), multiscale pyramids and the dead functions "
     "approximate_right_disparity / approximate_subpixel_refinement are outside the pipeline theorem",
 ]
